@@ -29,7 +29,7 @@ def candidate_params(desc, pars):
 
 class CompileCase:
     def __init__(self, M, rng: random.Random, desc, pars, symtype, sym_keys=(), opts=None, ops=None,
-                 own_symbols=True, extra_params=None):
+                 own_symbols=True, extra_params=None, prestep=None):
         import casadi as cs
 
         NE, CE = drive.engines(M)
@@ -75,10 +75,19 @@ class CompileCase:
         self.engine = CE(symtype)
         self.spars = spars
         kw = drive.step_pars(spars)
+        # the objects may already have a past: an earlier step (own symbols, other parameters/options)
+        if prestep is None:
+            prestep = rng.random() < 0.25
+        self.prestep = bool(prestep)
+        if self.prestep:
+            try:
+                self.built.net.step(engine=self.engine, **{k_: True for k_ in ("positive_init_density", "positive_next_speed") if rng.random() < 0.5}, **kw)
+            except Exception:
+                pass
         if own_symbols:
             self.built.net.step(engine=self.engine, **self.opts, **kw)
         else:
-            ic, self.syms = drive.sym_init(M, self.built, symtype)
+            ic, self.syms = drive.sym_init(M, self.built, symtype, shuffle_keys=(rng if rng.random() < 0.6 else None))
             self.built.net.step(init_conditions=ic, engine=self.engine, **self.opts, **kw)
         self.order = C.live_order(self.built)
 
